@@ -7,6 +7,8 @@ R24b  ServerContext::task's spawned body: every feasible path to completion perf
       (a panic would unwind the task past the send) but awaited through an isolating JoinHandle/catch_unwind.
 R24c  message loop: a Request either is the shutdown request or reaches on_request_handler; requests that arrive
       during initialization are queued and later replayed through handle_message.
+R24e  the per-message dispatchers never return Err (an Err ends the server loop and every later request is unanswered);
+      the queue of messages received during initialization is only appended to and replayed.
 R24d  run_ls: between initialize_start (which yields the request id) and initialize_finish no panic-capable call
       and no return without an error response for that id.
 """
@@ -33,6 +35,7 @@ def run(chk, F, tier):
     chk.rule("R24a", "dispatch: every path entry->return passes exactly one of ServerContext::task / ServerContext::send")
     chk.rule("R24b", "task body: exactly one Response send on every feasible path; handler future isolated from unwinding")
     chk.rule("R24c", "message loop: requests reach the dispatcher or the shutdown handler; queued requests are replayed")
+    chk.rule("R24e", "dispatchers never return Err; the initialization queue is append/replay only")
     chk.rule("R24d", "initialize: no panic site or unanswered return between initialize_start and initialize_finish")
     chk.assume("the lsp-server crate delivers every parsed message to the loop and its Sender delivers to the client")
     chk.assume("decides the response discipline of the dispatch code; handler internals are covered by C25's panic surface")
@@ -171,6 +174,44 @@ def run(chk, F, tier):
     p = cfgutil.paths_avoiding(succ, 0, ml, q) if (ml and q) else [0]
     chk.check(bool(w) and bool(q) and p is None, "R24c", "init:replay-before-loop",
               "the main loop can start before the queued messages are replayed", run_.loc())
+
+    # ---- R24c' the initialization queue is append-only until it is replayed
+    nq = 0
+    for b in F.bodies.values():
+        if b.crate != LS:
+            continue
+        for bi, blk in enumerate(b.blocks):
+            if blk[0]:
+                continue
+            for st in blk[1]:
+                if st[0] == "a" and st[2][0] == "ref" and st[2][1] == "m" and \
+                        any(isinstance(e, list) and e[0] == "f" and e[2] == "pending_messages" for e in st[2][2][1:]):
+                    # who consumes this &mut borrow?
+                    l = st[1][0] if len(st[1]) == 1 else None
+                    for bb2, c2 in b.calls():
+                        if any(a[0] in ("c", "m") and a[1] == [l] for a in c2["a"]):
+                            nq += 1
+                            api = name(c2)
+                            ok = (api.startswith("alloc::vec::Vec") and api.endswith("::push")) or api == "core::mem::take"
+                            chk.check(ok, "R24c", "queue-writer:%s@%s" % (api.split("::")[-1], b.id),
+                                      "%s mutates the queue of messages received during initialization with %s: a queued "
+                                      "request that is removed instead of replayed is never answered" % (b.id, api), b.loc(c2["l"]),
+                                      sample={"rule": "R24c", "site": b.id, "api": api, "verdict": "append or replay"})
+    chk.floor("writers of the initialization queue", nq, 1)
+
+    # ---- R24e a single message never ends the loop: the notification and request dispatchers cannot return Err
+    for fid in (LS + "::handlers::notification_handler::on_notification_handler::{closure#0}", DISPATCH):
+        hb = F.bodies.get(fid)
+        if hb is None:
+            raise RuleBroken("%s not found" % fid)
+        errs = [bb for bb, c in hb.calls() if "FromResidual" in name(c)]
+        err_aggs = [bi for bi, blk in enumerate(hb.blocks) if not blk[0] for st in blk[1]
+                    if st[0] == "a" and st[1] == [0] and st[2][0] == "agg" and st[2][3] == "Err"]
+        chk.check(not errs and not err_aggs, "R24e", "never-err:%s" % fid.split("::")[-2],
+                  "%s can return Err (a `?` or explicit Err): handle_message propagates it with `?` and the server loop ends, so "
+                  "every later request goes unanswered" % fid.split("::")[-2], hb.loc(),
+                  witness={"from_residual_blocks": errs, "err_blocks": err_aggs},
+                  sample={"rule": "R24e", "fn": fid.split("::")[-2], "verdict": "all returns are Ok"})
 
     # ---- R24d
     rl = F.bodies.get(LS + "::server::run_ls::{closure#0}")
